@@ -19,10 +19,10 @@ func init() {
 		Rules: map[string]string{
 			"R1": "guard ↔ action agreement for every submitted action",
 			"R2": "provenance of the chosen action: only elements of the allowed-action list",
-			"R3": "exactly one action (or hand-off) per path; none only when nothing is allowed",
+			"R3": "exactly one action (or hand-off) per path; none only when nothing is allowed; no known-nil error returned",
 			"R4": "bet/raise amount clamp shape and positivity of the random draw; pay amounts",
 			"R5": "own id: Actions → adapter → engine forwarding, same name, arguments in order",
-			"R6": "silence guards before the move request",
+			"R6": "silence guards before the move request; a view with the same time stamp counts as stale; the time of every non-stale view is remembered before acting",
 		},
 		Assumptions: []string{"pokerface accepts any amount between the stated minimum and the stack for bet/raise"},
 		Run:         checkC18,
